@@ -297,15 +297,19 @@ pub fn judge_program(ctx: &mut WorkerCtx, p: &Plan, prop: &'static str, backend:
                     }
                 }
             }
-            ctx.sample(|| {
-                let (s, c) = &halting[halting.len() - 1];
+            let interesting = code.contains(&b'[') && halting[halting.len() - 1].1.trace.len() >= 2;
+            if interesting {
+                ctx.sample(|| {
+                    let (s, c) = &halting[halting.len() - 1];
                 J::obj()
                     .set("program", String::from_utf8_lossy(&code).to_string())
                     .set("width", w.bits())
                     .set("script", diff::script_hex(s))
                     .set("canonical_trace", diff::trace_str(&c.trace))
-                    .set("levels", lv.iter().map(|&l| l as u64).collect::<Vec<_>>())
-            });
+                        .set("levels", lv.iter().map(|&l| l as u64).collect::<Vec<_>>())
+                        .set("space", tag)
+                });
+            }
         }
     }
 }
